@@ -267,8 +267,8 @@ def parse_out(s):
 
 class C11(PropBase):
     pid = "C11"
-    coq_dirs = ["Base", "C08", "C09", "C11"]
-    translators = []
+    coq_dirs = ["Base", "Gen", "C08", "C09", "C11"]
+    translators = ["c11_symbolize.py"]
     bins = ["c11"]
     rule = ("case = records of one symbol file (FILE, INLINE_ORIGIN inside/outside FUNC blocks, PUBLIC, FUNC with line and "
             "multi-range INLINE records, STACK WIN) + module list (module 0 = base/size with symbols, optional further modules "
